@@ -590,6 +590,12 @@ def run(chk, facts, info):
     c03_optfield.run(chk, facts)
     from . import c03_counted
     c03_counted.run(chk, facts)
+    from . import c03_nullret
+    c03_nullret.run(chk, facts)
+    c03_nullret.run_ptr_offsets(chk, facts)
+    c03_nullret.run_inplace_growth(chk, facts)
+    from . import c03_variant
+    c03_variant.run(chk, facts)
     chk.rule('C03-R13', 'in p2bin, p2hex, alink and dasl every ChkIO() call stands directly under a failure test of the '
              'operation it checks or is preceded on every path by errno = 0: a well-formed input is not rejected with '
              'an I/O error because of a stale errno', min_instances=100)
